@@ -8,7 +8,10 @@ import (
 
 	"github.com/lightninglabs/lndclient"
 	"github.com/lightninglabs/pool/account"
+	"github.com/lightninglabs/pool/auctioneer"
+	"github.com/lightninglabs/pool/clientdb"
 	"github.com/lightninglabs/pool/order"
+	"github.com/lightninglabs/pool/poolrpc"
 	"github.com/lightninglabs/pool/sidecar"
 )
 
@@ -59,4 +62,48 @@ func (a *SidecarNegotiator) VerifC16QuitClosed() bool {
 	default:
 		return false
 	}
+}
+
+// VerifC16RPC is a minimal rpcServer over a real client database and a real
+// SidecarAcceptor, for calling the REAL CancelSidecar / CancelOrder /
+// setTicketStateForOrder of the RPC server.
+type VerifC16RPC struct {
+	s   *rpcServer
+	Acc *SidecarAcceptor
+}
+
+// VerifC16NewRPC builds the minimal rpcServer. The acceptor only serves as
+// the registry of running negotiators (FinalizeTicket).
+func VerifC16NewRPC(db *clientdb.DB, auct *auctioneer.Client) *VerifC16RPC {
+	acc := NewSidecarAcceptor(&SidecarAcceptorConfig{SidecarDB: db})
+	return &VerifC16RPC{
+		s:   &rpcServer{server: &Server{db: db, sidecarAcceptor: acc}, auctioneer: auct},
+		Acc: acc,
+	}
+}
+
+// Register enters a negotiator into the acceptor's registry the way
+// CoordinateSidecar / AutoAcceptSidecar / Start do.
+func (v *VerifC16RPC) Register(t *sidecar.Ticket, n *SidecarNegotiator) error {
+	streamID, err := deriveRecipientStreamID(t)
+	if err != nil {
+		return err
+	}
+	v.Acc.Lock()
+	v.Acc.negotiators[streamID] = n
+	v.Acc.Unlock()
+	return nil
+}
+
+// CancelSidecar calls the real rpcServer.CancelSidecar.
+func (v *VerifC16RPC) CancelSidecar(id []byte) error {
+	_, err := v.s.CancelSidecar(context.Background(), &poolrpc.CancelSidecarRequest{SidecarId: id})
+	return err
+}
+
+// SetTicketStateForOrder calls the real rpcServer.setTicketStateForOrder (what
+// the RPC server does when the batch of an order was finalized / an order was
+// canceled).
+func (v *VerifC16RPC) SetTicketStateForOrder(st sidecar.State, nonce order.Nonce) error {
+	return v.s.setTicketStateForOrder(st, nonce)
 }
